@@ -73,6 +73,12 @@ type In struct {
 	Lorg  string `json:"lorg"`
 	Slow  bool   `json:"slow"` // the policy lookup is unanswered until a source-block check runs
 	Real  string `json:"real"` // "no" | "unsigned" | "valid" | "broken": DKIM results from the real check.dkim
+	// Cq: a cooperating check of the same pipeline quarantines the message: "no" | "sender" (pipeline-wide
+	// check block, sender stage) | "body" (source block, body stage) | "meta" (the message is handed to the
+	// pipeline already flagged: MsgMetadata.Quarantine set by the message source)
+	Cq string `json:"cq"`
+	// Path: "atomic" (Body) | "na" (BodyNonAtomic, a status per recipient)
+	Path string `json:"path"`
 }
 
 type ZoneEnt struct {
@@ -309,6 +315,55 @@ func (s *gateState) CheckBody(context.Context, textproto.Header, buffer.Buffer) 
 }
 func (s *gateState) Close() error { return nil }
 
+// coopCheck is the second, cooperating component: a check that asks for the message to be
+// quarantined (what check.spf does by default for an SPF fail), at the stage the row names.
+// One instance sits in the pipeline-wide check block (stage "sender"), one in the source
+// block (stage "body"); for rows without such a check both answer nothing.
+type coopCheck struct {
+	stage string
+	rows  sync.Map // msg ID -> cq of the row
+}
+
+func (c *coopCheck) Init(*config.Map) error { return nil }
+func (c *coopCheck) Name() string           { return "verif_dmarc_coop_" + c.stage }
+func (c *coopCheck) InstanceName() string   { return "verif_dmarc_coop_" + c.stage }
+func (c *coopCheck) CheckStateForMsg(_ context.Context, m *module.MsgMetadata) (module.CheckState, error) {
+	v, _ := c.rows.Load(m.ID)
+	cq, _ := v.(string)
+	return &coopState{on: cq == c.stage, stage: c.stage}, nil
+}
+
+type coopState struct {
+	on    bool
+	stage string
+}
+
+func (s *coopState) res(stage string) module.CheckResult {
+	if !s.on || stage != s.stage {
+		return module.CheckResult{}
+	}
+	return module.CheckResult{Quarantine: true, Reason: &exterrors.SMTPError{Code: 550,
+		EnhancedCode: exterrors.EnhancedCode{5, 7, 23}, Message: "cooperating check failed", CheckName: "verif_dmarc_coop"}}
+}
+func (s *coopState) CheckConnection(context.Context) module.CheckResult     { return s.res("conn") }
+func (s *coopState) CheckSender(context.Context, string) module.CheckResult { return s.res("sender") }
+func (s *coopState) CheckRcpt(context.Context, string) module.CheckResult   { return s.res("rcpt") }
+func (s *coopState) CheckBody(context.Context, textproto.Header, buffer.Buffer) module.CheckResult {
+	return s.res("body")
+}
+func (s *coopState) Close() error { return nil }
+
+type naCollector struct {
+	mu sync.Mutex
+	st map[string][]error
+}
+
+func (c *naCollector) SetStatus(rcpt string, err error) {
+	c.mu.Lock()
+	defer c.mu.Unlock()
+	c.st[rcpt] = append(c.st[rcpt], err)
+}
+
 type seen struct {
 	body, committed, aborted bool
 	quarantine               bool
@@ -371,10 +426,12 @@ const pipelineCfg = `
 dmarc yes
 check {
     verif_dmarc
+    verif_dmarc_coop_sender
 }
 default_source {
     check {
         verif_dmarc_gate
+        verif_dmarc_coop_body
     }
     deliver_to &verif_dmarc_target
 }
@@ -393,6 +450,8 @@ deliver_to &verif_dmarc_target
 
 type world struct {
 	chk      *check
+	coopS    *coopCheck
+	coopB    *coopCheck
 	gate     *gateCheck
 	tgt      *tgt
 	pipe     *msgpipeline.MsgPipeline
@@ -404,7 +463,8 @@ type world struct {
 }
 
 func newWorld(t *testing.T) *world {
-	w := &world{chk: &check{}, gate: &gateCheck{}, tgt: &tgt{msgs: map[string]*seen{}}, sigs: map[string]string{}}
+	w := &world{chk: &check{}, gate: &gateCheck{}, tgt: &tgt{msgs: map[string]*seen{}}, sigs: map[string]string{},
+		coopS: &coopCheck{stage: "sender"}, coopB: &coopCheck{stage: "body"}}
 	pub, priv, err := ed25519.GenerateKey(rand.Reader)
 	if err != nil {
 		t.Fatal(err)
@@ -416,6 +476,12 @@ func newWorld(t *testing.T) *world {
 	})
 	module.Register("check.verif_dmarc_gate", func(_, _ string, _, _ []string) (module.Module, error) {
 		return w.gate, nil
+	})
+	module.Register("check.verif_dmarc_coop_sender", func(_, _ string, _, _ []string) (module.Module, error) {
+		return w.coopS, nil
+	})
+	module.Register("check.verif_dmarc_coop_body", func(_, _ string, _, _ []string) (module.Module, error) {
+		return w.coopB, nil
 	})
 	// the real module from its own constructor; only the resolver is replaced
 	module.Register("check.verif_realdkim", func(_, instName string, _, inlineArgs []string) (module.Module, error) {
@@ -611,6 +677,12 @@ func runRow(t *testing.T, w *world, r Row) (o out) {
 	defer w.chk.rows.Delete(id)
 	w.gate.envs.Store(id, env)
 	defer w.gate.envs.Delete(id)
+	if in.Cq != "" && in.Cq != "no" {
+		w.coopS.rows.Store(id, in.Cq)
+		defer w.coopS.rows.Delete(id)
+		w.coopB.rows.Store(id, in.Cq)
+		defer w.coopB.rows.Delete(id)
+	}
 	defer env.release() // never leave a lookup goroutine parked
 	env.mu.Lock()
 	env.gated = in.Slow
@@ -620,7 +692,7 @@ func runRow(t *testing.T, w *world, r Row) (o out) {
 		mailFrom = "bounce@" + in.Spf.Mf
 	}
 	meta := &module.MsgMetadata{ID: id, DontTraceSender: true, SMTPOpts: smtp.MailOptions{},
-		OriginalFrom: mailFrom}
+		OriginalFrom: mailFrom, Quarantine: in.Cq == "meta"}
 	d, err := pipe.Start(ctx, meta, meta.OriginalFrom)
 	if err != nil {
 		t.Fatalf("row %d: Start: %v", r.ID, err)
@@ -628,9 +700,37 @@ func runRow(t *testing.T, w *world, r Row) (o out) {
 	if err := d.AddRcpt(ctx, "rcpt@rcpt.invalid", smtp.RcptOptions{}); err != nil {
 		t.Fatalf("row %d: AddRcpt: %v", r.ID, err)
 	}
-	berr := d.Body(ctx, hdrOf(), body)
+	var berr error
+	if in.Path == "na" {
+		// the per-recipient body path: the one recipient's status is the answer; like the LMTP
+		// endpoint the driver commits whatever the status was
+		col := &naCollector{st: map[string][]error{}}
+		d.(module.PartialDelivery).BodyNonAtomic(ctx, col, hdrOf(), body)
+		col.mu.Lock()
+		sts := col.st["rcpt@rcpt.invalid"]
+		nOther := len(col.st)
+		col.mu.Unlock()
+		if len(sts) > 1 || (len(sts) == 1 && nOther != 1) || (len(sts) == 0 && nOther != 0) {
+			o.Action = fmt.Sprintf("incoherent-statuses-%d-%d", len(sts), nOther)
+			_ = d.Abort(ctx)
+			w.tgt.take(id)
+			return o
+		}
+		if len(sts) == 1 {
+			berr = sts[0]
+		}
+		if berr != nil {
+			if err := d.Commit(ctx); err != nil {
+				t.Fatalf("row %d: Commit after refused BodyNonAtomic: %v", r.ID, err)
+			}
+		}
+	} else {
+		berr = d.Body(ctx, hdrOf(), body)
+		if berr != nil {
+			_ = d.Abort(ctx)
+		}
+	}
 	if berr != nil {
-		_ = d.Abort(ctx)
 		o.PipeErr = berr.Error()
 		var se *exterrors.SMTPError
 		if errors.As(berr, &se) {
